@@ -69,7 +69,9 @@ CLAIMED = {
          'the text the library renders is exactly ONE literal of the dialect which the dialect\'s reference lexer decodes back to the original '
          'string -- ANSI-style dialects (sqlite, firebird, sybase, maxdb, mssql: C02_string_ansi), MySQL backslash escapes (C02_string_mysql), '
          'PostgreSQL plain and E\'\' literals incl. the prefix decision (C02_string_pg_partial: NUL-free strings); numbers, booleans, None, '
-         'dates and sequences render as single tokens (C02_value_tokens, C02_sequence); the token skeleton of INSERT / UPDATE SET / WHERE = / '
+         'dates and sequences render as single tokens (C02_value_tokens, C02_sequence); a sequence of n values -- tuple/list/set given to sqlrepr, an IN list, the '
+         'argument list of a SQL function call -- renders as exactly n members, the i-th being the literal of value i, which the tokenizer reads back as such: no member '
+         'dropped, merged or reordered (C02_sequence_text, C02_list_members, C02_sequence_members, C02_call_args); the token skeleton of INSERT / UPDATE SET / WHERE = / '
          'IS NULL / IN statements is independent of the data (C02_insert ... C02_skeleton_independent_of_data); sqlite refuses NUL '
          '(C02_sqlite_nul). The escape table and converter branches are regenerated from converters.py/dbconnection.py on every run (Tie A); '
          'texts of all seven dialects and the real sqlite engine\'s decoding are compared on every case (Tie B). Open findings carry refutation '
@@ -206,12 +208,14 @@ CLAIMED = {
          'commit makes the committed state equal to the transaction\'s view and, under the guard naming the open findings, every parent-side '
          'instance shows exactly that state (C07_commit_database, C07_commit_shows_exact_state_partial); rollback leaves the committed state '
          'untouched, created rows do not exist, transaction-side instances are expired (C07_rollback_database, C07_rollback_created_rows_gone, '
-         'C07_rollback_erases_partial); a finished transaction refuses every data operation until begin() (C07_obsolete_refuses, C07_begin). '
-         'Three open findings carry refutation witnesses. The model is run against the real SQLObject on a file-backed sqlite database, both '
+         'C07_rollback_erases_partial); a finished transaction refuses every data operation until begin() (C07_obsolete_refuses, C07_begin); pickling an instance '
+         'bound to the transaction is refused with nothing changed and no statement, pickling a parent-side lazy instance is exactly syncUpdate '
+         '(C07_pickle_refused_changes_nothing, C07_pickle_accepted_is_sync_update); a select returns exactly the rows visible on its side (C07_select); '
+         'lazyUpdate, a UNIQUE column and cacheValues=False are class options of the model (C07_lazy_assignment_queues, C07_sync_update, C07_refused_statement). '
+         'Open findings carry refutation witnesses. The model is run against the real SQLObject on a file-backed sqlite database, both '
          'sides and a third raw connection read after every step.'),
    note=('Trusted: Coq kernel; Model/Txn.v hand model (validated only by the correspondence); sqlite rollback-journal locking/visibility, '
-         'CPython refcounting, dict order modelled; one transaction object per parent; raw SQL through the transaction, lazyUpdate and '
-         'constraints outside the operation set.'),
+         'CPython refcounting, dict order modelled; one transaction object per parent; raw SQL through the transaction, deleteMany and multi-column set(**kw) outside the operation set.'),
    technique='Coq proof (invariants over all interleavings of parent/transaction operations of an executable transaction model) + vm_compute correspondence against file-backed sqlite',
    design='3/C07, docs/notes/C07.md'),
  'C08': dict(
